@@ -235,6 +235,20 @@ def _cpu_branch(body):
         taken = {"Z": bool(f0 & 2), "NZ": not (f0 & 2), "C": bool(f0 & 1), "NC": not (f0 & 1)}[m.group(2)]
     br = [(b.type, b.target) for b in info.branches]
     probs = []
+    # the facts Binary Ninja is handed come from the architecture callback: same kinds, same targets mod 2^20
+    from sc62015.arch import SC62015
+    data = bytes(cells.get(addr + i, 0) & 0xFF for i in range(instr.length() + 2))
+    hinfo = SC62015().get_instruction_info(data, addr)
+    if hinfo is None:
+        probs.append("get_instruction_info rejects an instruction the emulator executes")
+    else:
+        hbr = [(b.type, b.target) for b in hinfo.branches]
+        if [k for k, _ in hbr] != [k for k, _ in br]:
+            probs.append(f"callback reports {[k.name for k, _ in hbr]}, analyze() {[k.name for k, _ in br]}")
+        else:
+            for (k, th), (_k, ta) in zip(hbr, br):
+                if (th is None) != (ta is None) or (th is not None and (th & 0xFFFFF) != (ta & 0xFFFFF)):
+                    probs.append(f"callback {k.name} target {th if th is None else hex(th)} vs analyze() {ta if ta is None else hex(ta)} (mod 2^20)")
     if info.length != instr.length():
         probs.append(f"info.length {info.length} != {instr.length()}")
     if not br and pc != nxt and mn != "IR":
